@@ -348,7 +348,7 @@ func C04(r *core.Run) {
 	sets, d5 := core.Parallel(r, "sets", in{dir, 0}, r.Workers, func(in in, shard, n int, emit func(bigRes)) {
 		roots := mkRoots(filepath.Join(in.Dir, fmt.Sprint("s", shard)))
 		pool := []string{"curl", "perl", "wget", "who", "cat", "cut", "nc", "ncat"}
-		dummy := ref.CmdCfg{UnixEvasion: "_av-u_", WindowsEvasion: "_av-w_"}
+		dummy := ref.CmdCfg{UnixEvasion: "_av-u_", UnixSuffix: "_av-u-suffix_", UnixNoSpace: "_av-ns-u-suffix_", WindowsEvasion: "_av-w_", WindowsSuffix: "_av-w-suffix_", WindowsNoSpace: "_av-ns-w-suffix_"}
 		idx := 0
 		for mask := 1; mask < 1<<len(pool); mask++ {
 			var ws []string
@@ -400,6 +400,41 @@ func C04(r *core.Run) {
 					}
 					emit(res)
 				}
+			}
+		}
+		// two blocks stored under names that share their beginning up to a character that is not a letter, digit, '-'
+		// or '_', each used in a group of its own: every word must be matched behind the text of its own group
+		for _, names := range [][2]string{{"cmds.unix", "cmds.windows"}, {"shell:sh", "shell:cmd"}, {"unix cmds", "unix tools"}, {"a", "b"}, {"x-1", "x_1"}, {"k", "k2"}, {"é1", "é2"}} {
+			for _, ws := range [][2][]string{{{"curl", "wget@"}, {"certutil", "bitsadmin@"}}, {{"who"}, {"dir~"}}} {
+				if idx++; idx%n != shard {
+					continue
+				}
+				prog := "##!> assemble\n  ##!> cmdline unix\n" + strings.Join(ws[0], "\n") + "\n  ##!<\n  ##!=< " + names[0] + "\n  ##!> cmdline windows\n" + strings.Join(ws[1], "\n") +
+					"\n  ##!<\n  ##!=< " + names[1] + "\n  sh:\n  ##!=>\n  ##!=> " + names[0] + "\n##!<\n##!> assemble\n  cmd:\n  ##!=>\n  ##!=> " + names[1] + "\n##!<\n"
+				o := inproc.GenerateFresh(roots["dummy-literals"], prog)
+				res := bigRes{N: len(ws[0]) + len(ws[1]), Shell: "both"}
+				if o.Kind != inproc.OK {
+					res.Err = prog + ": " + o.Kind + " " + tailStr(o.Msg, 200)
+					emit(res)
+					continue
+				}
+				re, err := regexp.Compile(`\A(?:` + o.Out + `)\z`)
+				if err != nil {
+					res.Err = prog + ": output does not compile: " + err.Error()
+					emit(res)
+					continue
+				}
+				for i, pre := range []string{"sh:", "cmd:"} {
+					for _, w := range ws[i] {
+						if !re.MatchString(pre + ref.Cmd(w, i == 1, dummy)) {
+							res.Missed = append(res.Missed, pre+w)
+						}
+					}
+				}
+				if len(res.Missed) > 0 {
+					res.Err = fmt.Sprintf("program %q generates %q", prog, o.Out)
+				}
+				emit(res)
 			}
 		}
 	})
